@@ -8,6 +8,7 @@ CONSTANTS
   Classes = {"ok", "guest"}
   MaxBad = 3
   Emit = TRUE
+  EmitMod = 1
 INIT InitGraphs
 NEXT NextGraphs
 INVARIANTS TheoremsHold EmitInv
